@@ -301,12 +301,12 @@ pub fn gen_enum(s: &mut Src, name: &str, bits: u32, plain: bool) -> EnumDecl {
     }
     if conditional && s.chance(1, 2) {
         // a disabled variant, possibly sharing a discriminant with an enabled one
-        let d = if s.chance(1, 2) { discs[0] } else { s.u128() & m };
-        variants.push(Variant {
-            name: format!("V{}", variants.len()),
-            disc: Disc::Lit { value: d, radix: 10, underscore: false },
-            cfg: Cfg::Never,
-        });
+        let d = if s.chance(2, 3) { discs[s.below(discs.len() as u32) as usize] } else { s.u128() & m };
+        let at = s.below(variants.len() as u32 + 1) as usize;
+        variants.insert(
+            at,
+            Variant { name: format!("V{}", variants.len()), disc: Disc::Lit { value: d, radix: 10, underscore: false }, cfg: Cfg::Never },
+        );
     }
     let exhaustive = if conditional {
         Exh::Conditional
